@@ -91,7 +91,7 @@ Lemma confidential_main g i1 i2 :
   g_encrypt_assertion g = true -> has_cert_for (g_cert_assertion g) g ->
   vis (idp_build g i1) = vis (idp_build g i2).
 Proof.
-  intros He Hc. apply vis_same. unfold idp_build, idp_build_with. rewrite He.
+  intros He Hc. apply vis_same. unfold idp_build, idp_build_with. destruct (gather g); [|reflexivity]. unfold response_with. rewrite He.
   rewrite (has_cert_flag _ g true Hc). cbn [negb andb orb]. rewrite !andb_false_r. cbn [andb orb].
   pose proof (has_cert_certs _ _ Hc) as Hne.
   set (flag := if negb (negb (is_nil (g_md_certs g))) && is_cnone (g_cert_advice g) then false else g_enc_advice g || g_pefim g).
@@ -154,7 +154,7 @@ Lemma confidential_advice g n a1 a2 :
   g_pefim g = true -> has_cert_for (g_cert_advice g) g ->
   vis (idp_build g {| i_name_id := n; i_attrs := a1 |}) = vis (idp_build g {| i_name_id := n; i_attrs := a2 |}).
 Proof.
-  intros Hp Hc. apply vis_same. unfold idp_build, idp_build_with. rewrite Hp. cbn [i_attrs i_name_id].
+  intros Hp Hc. apply vis_same. unfold idp_build, idp_build_with. destruct (gather g); [|reflexivity]. unfold response_with. rewrite Hp. cbn [i_attrs i_name_id].
   rewrite orb_true_r. rewrite (has_cert_flag _ g true Hc). cbn [negb andb orb List.length Nat.eqb is_nil]. rewrite !andb_false_r. rewrite orb_true_r.
   pose proof (encrypt_with_hides (g_cert_advice g) (g_md_certs g)
      (sign_if false (g_idp_key g) (advice_assertion (g_pub g) a1)) (sign_if false (g_idp_key g) (advice_assertion (g_pub g) a2))
@@ -250,7 +250,7 @@ Proof. intros H; injection H as ->; reflexivity. Qed.
 
 Lemma enc_keys_for_sp fixed g i t : idp_build_with fixed g i = Ok t -> forall k, In k (enc_keys t) -> for_this_sp g k.
 Proof.
-  unfold idp_build_with, for_this_sp. intros H k Hk.
+  unfold idp_build_with. destruct (gather g); [|discriminate]. unfold response_with, for_this_sp. intros H k Hk.
   set (adv := if g_pefim g then [advice_assertion (g_pub g) (i_attrs i)] else []) in *.
   assert (flat_map enc_keys adv = []) as Hadv.
   { unfold adv. destruct (g_pefim g); [|reflexivity]. cbn [flat_map]. now rewrite enc_keys_advice. }
@@ -289,7 +289,7 @@ Lemma all_certs_unusable_raises g i :
   (forall k u, In (k, u) (certs_for (g_cert_assertion g) (g_md_certs g)) -> u = false) ->
   exists e, idp_build g i = Err e.
 Proof.
-  intros He Hc Hall. unfold idp_build, idp_build_with. rewrite He.
+  intros He Hc Hall. unfold idp_build, idp_build_with. destruct (gather g) as [[]|e0]; [|now exists e0]. unfold response_with. rewrite He.
   rewrite (has_cert_flag _ g true Hc). cbn [negb andb orb]. rewrite !andb_false_r. cbn [andb orb].
   pose proof (has_cert_certs _ _ Hc) as Hne.
   match goal with |- exists e, (match ?x with _ => _ end) = _ => destruct x as [ak|e0]; [|now exists e0] end.
@@ -303,7 +303,8 @@ Definition pub0 : pubinfo := {| p_rid := E "id-r"; p_aid := E "id-a"; p_advid :=
   p_dest := E "https://sp.example.org/acs"; p_irt := E "req-1"; p_sp := E "https://sp.example.org/sp"; p_instant := E "2026-09-21T14:13:20Z";
   p_nooa := E "2026-09-21T14:28:20Z"; p_session := E "id-s"; p_classref := E "urn:oasis:names:tc:SAML:2.0:ac:classes:Password" |}.
 Definition g_pefim_signed : idp_args := {| g_sign_response := false; g_sign_assertion := true; g_encrypt_assertion := false; g_enc_advice := false;
-  g_pefim := true; g_self_contained := true; g_cert_assertion := CNone; g_cert_advice := CNone; g_md_certs := [(1, true)]; g_idp_key := 3; g_pub := pub0 |}.
+  g_pefim := true; g_self_contained := true; g_cert_assertion := CNone; g_cert_advice := CNone; g_md_certs := [(1, true)]; g_verify_assertion := None; g_verify_advice := None;
+  g_idp_key := 3; g_pub := pub0 |}.
 Definition ident0 : ident := {| i_name_id := Some (E "subject-7"); i_attrs := [(E "mail", [E "anna@example.org"])] |}.
 
 Lemma advice_clear_before_fix :
@@ -320,4 +321,24 @@ Lemma advice_hidden_after_fix :
 Proof.
   eexists. split; [reflexivity|]. vm_compute. repeat split; try tauto;
   intros H; repeat (destruct H as [H|H]; [discriminate H|]); exact H.
+Qed.
+
+(* ---------- a configured verify_encrypt_cert_* callable decides which certificate is used ---------- *)
+Lemma verified_cert_used fixed g i t k0 :
+  idp_build_with fixed g i = Ok t -> g_encrypt_assertion g = true -> g_verify_assertion g = Some k0 ->
+  g_cert_assertion g = CGiven k0 true.
+Proof.
+  unfold idp_build_with, gather. intros H He Hv. rewrite He, Hv in H.
+  destruct (if g_enc_advice g || g_pefim g then cert_accepted (g_verify_advice g) (g_cert_advice g) else Ok tt); [|discriminate].
+  unfold cert_accepted in H. destruct (g_cert_assertion g) as [| |k u]; try discriminate. destruct u; [|discriminate].
+  destruct (N.eqb_spec k k0) as [Hk|]; [now subst k|discriminate].
+Qed.
+
+Lemma verified_advice_cert_used fixed g i t k0 :
+  idp_build_with fixed g i = Ok t -> g_pefim g = true -> g_verify_advice g = Some k0 ->
+  g_cert_advice g = CGiven k0 true.
+Proof.
+  unfold idp_build_with, gather. intros H Hp Hv. rewrite Hp, Hv, orb_true_r in H.
+  unfold cert_accepted in H at 1. destruct (g_cert_advice g) as [| |k u]; try discriminate. destruct u; [|discriminate].
+  destruct (N.eqb_spec k k0) as [Hk|]; [now subst k|discriminate].
 Qed.
